@@ -19,6 +19,123 @@ pub struct C03;
 pub struct Case {
     pub spec: GraphSpec,
     pub chunk: Chunking,
+    /// "mixed" scenario: the root reaches modules through meta.load-css BEFORE their first @use
+    /// (judged weakly: must compile, users must see the module's members)
+    #[serde(default)]
+    pub mixed: bool,
+}
+
+/// root --load-css--> m, x (in some order, m possibly twice); x --use--> m (directly or through a forwarder f)
+fn mixed_spec(rng: &mut Rng) -> GraphSpec {
+    let use_m = |url: &str, ns: &str, target: usize| Stmt::Load {
+        kind: LoadKind::Use,
+        url: url.to_string(),
+        target,
+        wrap: Wrap::None,
+        ns: ns.to_string(),
+        with_cfg: false,
+        filter: 0,
+    };
+    let lc = |url: &str, target: usize, wrap: Wrap| Stmt::Load {
+        kind: LoadKind::LoadCss,
+        url: url.to_string(),
+        target,
+        wrap,
+        ns: String::new(),
+        with_cfg: false,
+        filter: 0,
+    };
+    let via_forward = rng.chance(1, 3);
+    let partial = rng.chance(1, 3);
+    let m_url = if partial { *rng.pick(&["m", "./m", "_m", "d/../m", "_m.scss"]) } else { *rng.pick(&["m", "./m", "m.scss", "d/../m"]) };
+    let mut root = vec![];
+    let wrap = *rng.pick(&[Wrap::None, Wrap::None, Wrap::If, Wrap::Mixin, Wrap::Rule]);
+    match rng.below(4) {
+        0 => {
+            root.push(lc(m_url, 2, wrap));
+            root.push(lc("x", 1, Wrap::None));
+        }
+        1 => {
+            root.push(lc("x", 1, Wrap::None));
+            root.push(lc(m_url, 2, wrap));
+        }
+        2 => {
+            root.push(lc(m_url, 2, wrap));
+            root.push(lc("x", 1, Wrap::None));
+            root.push(lc("m", 2, Wrap::None));
+        }
+        _ => {
+            root.push(lc(m_url, 2, wrap));
+            root.push(lc("x", 1, Wrap::None));
+            root.push(lc("x", 1, Wrap::None));
+        }
+    }
+    root.push(Stmt::Marker);
+    let mut files = vec![FileSpec { path: "w/root.scss".into(), stmts: root }];
+    let x_stmts = if via_forward {
+        vec![use_m("f", "n0", 3), Stmt::ModuleVars, Stmt::Probe { ns: "n0".into(), target: 2, tag: 1 }]
+    } else {
+        vec![use_m(if partial { *rng.pick(&["m", "./m", "_m"]) } else { *rng.pick(&["m", "./m", "m.scss"]) }, "n0", 2), Stmt::ModuleVars, Stmt::Probe { ns: "n0".into(), target: 2, tag: 1 }]
+    };
+    files.push(FileSpec { path: "w/x.scss".into(), stmts: x_stmts });
+    files.push(FileSpec { path: if partial { "w/_m.scss".into() } else { "w/m.scss".into() }, stmts: vec![Stmt::ModuleVars] });
+    if via_forward {
+        files.push(FileSpec {
+            path: "w/f.scss".into(),
+            stmts: vec![
+                Stmt::Load { kind: LoadKind::Forward, url: "m".into(), target: 2, wrap: Wrap::None, ns: String::new(), with_cfg: false, filter: rng.below(3) as u8 },
+                Stmt::ModuleVars,
+            ],
+        });
+    }
+    GraphSpec { files, extra_dirs: vec!["w/d".into()], bases: vec!["w".into()], fmt: Fmt::draw(rng), merge_imports: false }
+}
+
+fn judge_mixed(case: &Case, stats: &mut Stats) -> (Judgement, Option<Outcome>) {
+    let spec = &case.spec;
+    let plan = FaultPlan::default();
+    let o = run_graph(spec, &plan, Chunking::NONE, 4000);
+    stats.compiled(&o);
+    stats.inc("probe:mixed_loadcss_before_use");
+    let css = match &o.res {
+        Res::Ok(css) => css.clone(),
+        Res::Panic(m) => return (Judgement::fail("no_panic", "mixed=1".into(), format!("panic: {m}")), Some(o)),
+        Res::Err { class: ErrClass::Parse, .. } => return (Judgement::Unjudged("other_error"), Some(o)),
+        Res::Err { text, .. } => {
+            let first = text.lines().next().unwrap_or("").chars().take(50).collect::<String>();
+            return (
+                Judgement::fail(
+                    "module_unusable",
+                    format!("mixed=1 error={}", first.replace(' ', "_")),
+                    format!("a module that was loaded by meta.load-css before its first @use cannot be used: {}", o.res.short()),
+                ),
+                Some(o),
+            );
+        }
+    };
+    let rules = parse_rules(&css);
+    let x_runs = spec.files[0].stmts.iter().filter(|s| matches!(s, Stmt::Load { target: 1, .. })).count();
+    let probes = rules.get("u1-1-t2").cloned().unwrap_or_default();
+    if probes.len() != x_runs {
+        return (
+            Judgement::fail("P1_css_once", "mixed=1 user=1".into(), format!("the user's rule occurs {} times for {x_runs} load-css calls", probes.len())),
+            Some(o),
+        );
+    }
+    let ids: Vec<String> = rules.get("m2").map(|v| v.iter().filter_map(|p| p.get("id").cloned()).collect()).unwrap_or_default();
+    for p in &probes {
+        if p.get("v").map(String::as_str) != Some("0") || !p.get("id").is_some_and(|i| ids.contains(i)) {
+            return (
+                Judgement::fail(
+                    "P2_one_instance",
+                    "mixed=1".into(),
+                    format!("the user of module m sees id {:?} / v {:?}, but m's instances printed ids {:?}", p.get("id"), p.get("v"), ids),
+                ),
+                Some(o),
+            );
+        }
+    }
+    (Judgement::Pass, Some(o))
 }
 
 /// Modules whose members are visible through a namespace for `t`:
@@ -70,8 +187,14 @@ fn add_probes(g: &mut GraphSpec, assign_via_forward: bool, rng: &mut Rng) {
                 Stmt::Load { kind: LoadKind::Use, ns, with_cfg, .. } if ns.is_empty() => {
                     *with_cfg = rng.chance(1, 2);
                 }
-                Stmt::Load { kind: LoadKind::Forward, with_cfg, .. } => {
+                Stmt::Load { kind: LoadKind::Forward, with_cfg, filter, .. } => {
                     *with_cfg = rng.chance(1, 6);
+                    // a third of the forwards filter (without hiding anything that is visible otherwise)
+                    *filter = match rng.below(6) {
+                        0 => 1,
+                        1 => 2,
+                        _ => 0,
+                    };
                 }
                 _ => {}
             }
@@ -104,7 +227,8 @@ fn add_probes(g: &mut GraphSpec, assign_via_forward: bool, rng: &mut Rng) {
                             continue;
                         }
                         // (namespaced assignments inside blocks are not parsed by this rsass, so they stay at top level)
-                        extra.push(Stmt::Assign { ns: ns.clone(), target, value, wrap: Wrap::None });
+                        // a third of the assignments happen inside the module (mixin with !global)
+                        extra.push(Stmt::Assign { ns: ns.clone(), target, value, wrap: Wrap::None, by_mixin: rng.chance(1, 3) });
                     }
                     _ => {
                         tag += 1;
@@ -136,6 +260,7 @@ struct M<'a> {
     last_assign_seq: Vec<u64>,
     assign_via_forward: Vec<bool>,
     assign_ns_has_forward: Vec<bool>,
+    assigned_by_mixin: Vec<bool>,
     seq: u64,
     ex: Expect,
 }
@@ -172,10 +297,19 @@ impl M<'_> {
         for s in &self.g.files[f].stmts {
             match s {
                 Stmt::ModuleVars => self.v[f] = 0,
-                Stmt::Assign { ns, target, value, .. } => {
+                Stmt::Assign { ns, target, value, by_mixin, .. } => {
                     self.seq += 1;
                     self.v[*target] = *value;
                     self.last_assign_seq[*target] = self.seq;
+                    if *by_mixin {
+                        // the mixin runs in the module itself: whatever namespace it was reached
+                        // through, it is the module's own variable that changes
+                        self.assigned_by_mixin[*target] = true;
+                        self.assign_via_forward[*target] = false;
+                        self.assign_ns_has_forward[*target] = false;
+                        continue;
+                    }
+                    self.assigned_by_mixin[*target] = false;
                     let nt = self.ns_target(f, ns);
                     if nt != *target {
                         self.assign_via_forward[*target] = true;
@@ -191,13 +325,14 @@ impl M<'_> {
                         && nt != usize::MAX
                         && self.last_assign_seq[*target] > self.loaded_seq[nt];
                     let toks = format!(
-                        "read_ns_star={} read_via_forward={} assigned_after_forwarder_loaded={} assign_via_forward={} read_ns_has_forward={} assign_ns_has_forward={}",
+                        "read_ns_star={} read_via_forward={} assigned_after_forwarder_loaded={} assign_via_forward={} read_ns_has_forward={} assign_ns_has_forward={} assigned_by_mixin={}",
                         u8::from(ns == "*"),
                         u8::from(via),
                         u8::from(after),
                         u8::from(self.assign_via_forward[*target]),
                         u8::from(nt != usize::MAX && self.has_forward(nt)),
-                        u8::from(self.assign_ns_has_forward[*target])
+                        u8::from(self.assign_ns_has_forward[*target]),
+                        u8::from(self.assigned_by_mixin[*target])
                     );
                     self.ex.probes.push((f, *tag, *target, self.v[*target], toks));
                 }
@@ -217,6 +352,7 @@ fn model(g: &GraphSpec) -> Expect {
         last_assign_seq: vec![0; n],
         assign_via_forward: vec![false; n],
         assign_ns_has_forward: vec![false; n],
+        assigned_by_mixin: vec![false; n],
         seq: 0,
         ex: Expect::default(),
     };
@@ -255,6 +391,9 @@ fn alias_tokens(g: &GraphSpec, target: usize) -> String {
 }
 
 pub fn judge(case: &Case, stats: &mut Stats) -> (Judgement, Option<Outcome>) {
+    if case.mixed {
+        return judge_mixed(case, stats);
+    }
     let spec = &case.spec;
     if reachable_cycle(spec) {
         return (Judgement::Unjudged("cyclic"), None);
@@ -276,10 +415,26 @@ pub fn judge(case: &Case, stats: &mut Stats) -> (Judgement, Option<Outcome>) {
         Res::Panic(m) => {
             return (Judgement::fail("no_panic", String::new(), format!("panic: {m}")), Some(o))
         }
-        Res::Err { .. } => {
+        Res::Err { class: ErrClass::Parse, .. } => {
+            // generated syntax this rsass does not parse: says nothing about module execution
             stats.inc("other_error");
             stats.inc(&format!("other_error:{}", o.res.short().chars().take(70).collect::<String>()));
             return (Judgement::Unjudged("other_error"), Some(o));
+        }
+        Res::Err { text, .. } => {
+            // Only graphs that must compile are generated (acyclic, every url resolves, every member read
+            // is visible), and the unchanged tree compiles all of them: an error means that some user
+            // could not see a module's members - the module was not executed for it, or it was handed
+            // something else than the module.
+            let first = text.lines().next().unwrap_or("").chars().take(50).collect::<String>();
+            return (
+                Judgement::fail(
+                    "module_unusable",
+                    format!("error={}", first.replace(' ', "_")),
+                    format!("a use/forward graph that must compile failed: {}", o.res.short()),
+                ),
+                Some(o),
+            );
         }
     };
     let rules = parse_rules(&css);
@@ -357,6 +512,9 @@ pub fn judge(case: &Case, stats: &mut Stats) -> (Judgement, Option<Outcome>) {
         }
         if *v != 0 {
             stats.inc("probe:read_after_assignment");
+        }
+        if toks.contains("assigned_by_mixin=1") {
+            stats.inc("probe:assigned_by_module_mixin");
         }
         if *seen != v.to_string() {
             return (
@@ -494,10 +652,13 @@ impl Prop for C03 {
     fn run(&self, seed: u64, index: u64, _tier: Tier, stats: &mut Stats) -> Vec<Violation> {
         let mut rng = Rng::new(seed);
         let (p, avf) = params(index, &mut rng);
-        let mut spec = gen_graph(&p, &mut rng);
-        add_probes(&mut spec, avf, &mut rng);
+        let mixed = index % 16 == 5;
+        let mut spec = if mixed { mixed_spec(&mut rng) } else { gen_graph(&p, &mut rng) };
+        if !mixed {
+            add_probes(&mut spec, avf, &mut rng);
+        }
         let chunk = if rng.chance(1, 4) { Chunking::draw(&mut rng) } else { Chunking::NONE };
-        let case = Case { spec, chunk };
+        let case = Case { spec, chunk, mixed };
         stats.inc("runs");
         stats.inc(&format!(
             "stratum:n{}/{}/{}{}",
@@ -549,10 +710,13 @@ impl Prop for C03 {
         };
         let mut out = vec![];
         if case.chunk != Chunking::NONE {
-            out.push(serde_json::to_value(Case { spec: case.spec.clone(), chunk: Chunking::NONE }).unwrap());
+            out.push(serde_json::to_value(Case { spec: case.spec.clone(), chunk: Chunking::NONE, mixed: case.mixed }).unwrap());
         }
         for g in graph_shrinks(&case.spec) {
-            out.push(serde_json::to_value(Case { spec: g, chunk: case.chunk }).unwrap());
+            if case.mixed {
+                break;
+            }
+            out.push(serde_json::to_value(Case { spec: g, chunk: case.chunk, mixed: false }).unwrap());
         }
         out
     }
@@ -577,7 +741,7 @@ impl Prop for C03 {
         if runs > 0 && judged * 10 < runs * 9 {
             errs.push(format!("only {judged} of {runs} runs were judged (<90%)"));
         }
-        for p in ["probe:module_loaded_from_several_places", "probe:id_compared", "probe:read_after_assignment", "probe:read_via_forward"] {
+        for p in ["probe:module_loaded_from_several_places", "probe:id_compared", "probe:read_after_assignment", "probe:read_via_forward", "probe:mixed_loadcss_before_use", "probe:assigned_by_module_mixin"] {
             if runs >= 1000 && stats.c.get(p) == 0 {
                 errs.push(format!("probe {p} stuck at zero"));
             }
